@@ -1244,15 +1244,13 @@ class EventBus:
                     pass  # Expected when we cancel the task
 
             # Ensure monitor task is cancelled
-            try:
-                if not monitor_task.done():
-                    monitor_task.cancel()
-                await monitor_task
-            except asyncio.CancelledError:
-                pass  # Expected when we cancel the monitor
-            except Exception as e:
-                # logger.debug(f"❌ {self} Handler monitor task cleanup error for {get_handler_name(handler)}#{str(id(handler))[-4:]}({event}): {type(e).__name__}: {e}")
-                pass
+            if not monitor_task.done():
+                monitor_task.cancel()
+            # asyncio.wait() does not re-raise the monitor's own CancelledError, so a CancelledError raised here
+            # means this task itself is being cancelled (e.g. the run loop at shutdown) and must propagate
+            await asyncio.wait([monitor_task])
+            if not monitor_task.cancelled():
+                monitor_task.exception()  # mark any monitor error as retrieved
 
     def _would_create_loop(self, event: 'BaseEvent[Any]', handler: EventHandler) -> bool:
         """Check if calling this handler would create a loop"""
